@@ -951,3 +951,50 @@ Qed.
 Example current_key_on_h_history :
   map (fun sites => length (st_defs _ _ _ (predict sites))) h_history = [1; 2].
 Proof. vm_compute. reflexivity. Qed.
+
+(* ================================================================================================ *)
+(* Part F: call-site constants passed as operands                                                    *)
+(* ================================================================================================ *)
+(* The key records only the TYPES of the operands.  A definition is therefore shared by call sites whose
+   constant operands differ in value; the value travels through the call node.  The shared body must be a
+   function of the key's inputs only: a body specialised on the first site's constant is exposed by any
+   later site with the same key and another constant. *)
+Section ConstOperands.
+Variables site K C R : Type.
+Variable K_eq_dec : forall a b : K, {a = b} + {a <> b}.
+Variable key : site -> K.
+Variable nin nout : site -> nat.
+Variable fam : site -> nat * bool.
+Variable cval : site -> C.           (* the values the site passes for its constant operands *)
+Variable body : site -> C -> R.      (* the body traced at the site, as a function of those operands *)
+
+Theorem generic_body_sound :
+  (forall c1 c2, key c1 = key c2 -> body c1 = body c2) ->
+  forall sites c, In c (st_calls _ _ _ (lower_sites site K (C -> R) K_eq_dec key body nin nout fam sites)) ->
+    d_sem _ _ (c_def _ _ _ c) (cval (c_site _ _ _ c)) = body (c_site _ _ _ c) (cval (c_site _ _ _ c)).
+Proof.
+  intros Hg sites c Hc.
+  now rewrite (dedup_sound site K (C -> R) K_eq_dec key body nin nout fam Hg sites c Hc).
+Qed.
+
+Theorem specialised_body_unsound :
+  forall c1 c2, key c1 = key c2 -> body c1 (cval c2) <> body c2 (cval c2) ->
+  exists sites c, In c (st_calls _ _ _ (lower_sites site K (C -> R) K_eq_dec key body nin nout fam sites)) /\
+    d_sem _ _ (c_def _ _ _ c) (cval (c_site _ _ _ c)) <> body (c_site _ _ _ c) (cval (c_site _ _ _ c)).
+Proof.
+  intros c1 c2 Hk Hb. exists [(c1, None); (c2, None)].
+  unfold lower_sites. simpl. unfold keyb at 1. simpl.
+  destruct (K_eq_dec (key c1) (key c2)) as [_|Hn]; [|contradiction].
+  simpl. eexists. split; [right; left; reflexivity|]. simpl. exact Hb.
+Qed.
+End ConstOperands.
+
+(* the real key ignores the value of a positional constant: two sites that differ only there have one key *)
+Theorem real_key_ignores_operand_values :
+  forall (HT FPT : Type) (hash : list nat -> HT) (fp : nat -> FPT) (c1 c2 : rsite),
+  s_qualname c1 = s_qualname c2 -> s_unique c1 = s_unique c2 -> s_is_class c1 = s_is_class c2 -> s_obj c1 = s_obj c2 ->
+  s_inst_type c1 = s_inst_type c2 -> s_state c1 = s_state c2 -> s_in_avals c1 = s_in_avals c2 -> s_params c1 = s_params c2 ->
+  real_key HT FPT hash fp c1 = real_key HT FPT hash fp c2.
+Proof.
+  intros HT FPT hash fp c1 c2 Hq Hu Hi Ho Ht Hs Ha Hp. unfold real_key, caps_of. now rewrite Hq, Hu, Hi, Ho, Ht, Hs, Ha, Hp.
+Qed.
